@@ -80,10 +80,10 @@ fn run_scenario(sc: &Value) {
     // the busy coroutine waits behind the unpreemptible one and is stolen by thread 2, where it must be
     // preempted just the same.
     let steal = sc["steal"].as_bool().unwrap_or(false);
-    // "storm": a coroutine goes in and out of a syscall state `storm` times (every return to Running runs the
-    // monitor's listener, which takes the notify-set lock, on the coroutine's own stack) while a plain thread
-    // sends SIGURG to the scheduling thread once per millisecond (the monitor's rate): a handler that suspends the coroutine while it
-    // holds that lock leaves the thread waiting for itself
+    // "storm": a coroutine goes in and out of a syscall state `storm` times; every return to Running runs the
+    // monitor's listener - notify-set lock, blocker lock - on the coroutine's own stack, and SIGURG is delivered
+    // right there: a handler that suspends the coroutine while it holds such a lock leaves the thread waiting
+    // for itself (Monitor!DeliverInside)
     let storm = sc["storm"].as_u64().unwrap_or(0);
     let busy_ms = sc["busy_ms"].as_f64().unwrap_or(45.0);
     GO.store(!steal, std::sync::atomic::Ordering::SeqCst);
@@ -150,23 +150,22 @@ fn run_scenario(sc: &Value) {
             }));
             sch.submit_raw_co(quick).expect("submit");
             if storm > 0 {
-                let me = unsafe { libc::pthread_self() };
-                let stop = std::sync::Arc::new(std::sync::atomic::AtomicBool::new(false));
-                let stop2 = stop.clone();
-                let _ = std::thread::spawn(move || {
-                    while !stop2.load(std::sync::atomic::Ordering::Relaxed) {
-                        unsafe { libc::pthread_kill(me, libc::SIGURG) };
-                        // the monitor's own rate: one signal per millisecond and overdue thread
-                        std::thread::sleep(Duration::from_micros(1000));
+                // the signal is delivered by the driver at the worst moment: inside CondvarBlocker::notify, with its
+                // lock held, while the monitor's listener runs on this coroutine's stack (pause point)
+                open_coroutine_core::common::verif::set_pause(Some(Box::new(|point| {
+                    if point == "blocker_notify_locked"
+                        && SchedulableCoroutine::current().is_some_and(|c| c.name().ends_with("-storm"))
+                        && open_coroutine_core::scheduler::SchedulableSuspender::current().is_some()
+                    {
+                        unsafe { libc::raise(libc::SIGURG) };
                     }
-                });
+                })));
                 let stormer = mk(4, "storm", Box::new(move || {
                     let co = SchedulableCoroutine::current().expect("current");
                     for _ in 0..storm {
                         co.syscall((), SyscallName::write, SyscallState::Executing).expect("enter syscall");
                         co.running().expect("leave syscall");
                     }
-                    stop.store(true, std::sync::atomic::Ordering::Relaxed);
                     rec(json!({"ev": "storm_done", "own": th}));
                     Some(4)
                 }));
